@@ -106,3 +106,32 @@ def _(self: Obj['rbql_csv.CSVRecordIterator']) -> Opt[Str]:
     raises('rbql_engine.RbqlIOHandlingError', True, 'decode_error_is_io_handling_error')
     raises('AssertionError', False, 'reader_gives_up_only_when_exhausted')
     modifies(field(self, 'buffer'), field(self, 'detected_line_separator'), field(self, 'exhausted'), field(self, 'NL'), field(self, 'utf8_bom_removed'), self.stream)
+
+
+@contract('rbql_csv.CSVRecordIterator.get_row_rfc', name='C12.row_rfc', props=['C12', 'C10'])
+def _(self: Obj['rbql_csv.CSVRecordIterator']) -> Opt[Str]:
+    requires(reader_inv(self), 'inv')
+    requires(self.NL >= 0, 'line_counter_sane')
+    local_types(rows_buffer=List[Str])
+    loop_types(0, row=Opt[Str])
+    invariant(0, reader_inv(self) and same(self.stream, old(self.stream)) and self.encoding == old(self.encoding) and self.comment_prefix == old(self.comment_prefix)
+              and self.NL >= 1 and is_fresh(rows_buffer) and len(rows_buffer) >= 1, 'config')
+    invariant(0, str_join('\n', contents(rows_buffer)) + rfc_tail(rest(self)) == line1(old(rest(self)), old(self.NL) == 0, self.encoding) + rfc_tail(after_first_line(old(rest(self)))), 'record_text_so_far')
+    invariant(0, rfc_after(rest(self)) == rfc_after(after_first_line(old(rest(self)))), 'remaining_content')
+    loop_hint(0, implies(not is_none(row), str_join('\n', contents(rows_buffer)) == str_join('\n', at_iter_start(contents(rows_buffer))) + '\n' + opt_val(row)))
+    loop_hint(0, implies(not is_none(row) and not odd_quotes(opt_val(row)), at_iter_start(rfc_tail(rest(self))) == '\n' + opt_val(row) + rfc_tail(rest(self))))
+    loop_hint(0, implies(not is_none(row) and not odd_quotes(opt_val(row)), at_iter_start(rfc_after(rest(self))) == rfc_after(rest(self))))
+    exit_hint(implies(not is_none(row) and odd_quotes(opt_val(row)), at_iter_start(rfc_tail(rest(self))) == '\n' + opt_val(row) and at_iter_start(rfc_after(rest(self))) == rest(self)), 'closing_line')
+    exit_hint(implies(is_none(row), at_iter_start(len(rest(self))) == 0 and at_iter_start(rfc_tail(rest(self))) == '' and at_iter_start(rfc_after(rest(self))) == '' and len(rest(self)) == 0 and rfc_after(rest(self)) == ''), 'end_of_content')
+    exit_hint(implies(not is_none(row), str_join('\n', contents(rows_buffer)) == str_join('\n', at_iter_start(contents(rows_buffer))) + '\n' + opt_val(row)), 'joined')
+    ensures(is_none(result) == (len(old(rest(self))) == 0), 'none_exactly_at_end_of_content')
+    # a comment line or a line with balanced quotes is a record of its own
+    ensures(implies(not is_none(result) and ((not is_none(self.comment_prefix) and line1(old(rest(self)), old(self.NL) == 0, self.encoding).startswith(opt_val(self.comment_prefix))) or not odd_quotes(line1(old(rest(self)), old(self.NL) == 0, self.encoding))),
+                    opt_val(result) == line1(old(rest(self)), old(self.NL) == 0, self.encoding) and rest(self) == after_first_line(old(rest(self)))), 'balanced_line_is_a_record')
+    # otherwise the record continues over physical lines (joined by LF) until its quotes balance, or to the end
+    ensures(implies(not is_none(result) and not (not is_none(self.comment_prefix) and line1(old(rest(self)), old(self.NL) == 0, self.encoding).startswith(opt_val(self.comment_prefix))) and odd_quotes(line1(old(rest(self)), old(self.NL) == 0, self.encoding)),
+                    opt_val(result) == line1(old(rest(self)), old(self.NL) == 0, self.encoding) + rfc_tail(after_first_line(old(rest(self))))
+                    and rest(self) == rfc_after(after_first_line(old(rest(self))))), 'multiline_record')
+    ensures(reader_inv(self), 'inv')
+    raises('rbql_engine.RbqlIOHandlingError', True, 'decode_error_is_io_handling_error')
+    modifies(field(self, 'buffer'), field(self, 'detected_line_separator'), field(self, 'exhausted'), field(self, 'NL'), field(self, 'utf8_bom_removed'), self.stream)
